@@ -75,8 +75,8 @@ def enterFrame : EM Nat := do
 def leaveFrame (saved : Nat) : EM Unit := modify fun st => { st with frameDepth := saved }
 
 def bump (tr : List (String × String × Nat)) (key outcome : String) : List (String × String × Nat) :=
-  if tr.any (fun t => t.1 == key && t.2.1 == outcome) then
-    tr.map (fun t => if t.1 == key && t.2.1 == outcome then (t.1, t.2.1, t.2.2 + 1) else t)
+  if tr.any (fun t => t.1 = key ∧ t.2.1 = outcome) then
+    tr.map (fun t => if t.1 = key ∧ t.2.1 = outcome then (t.1, t.2.1, t.2.2 + 1) else t)
   else tr ++ [(key, outcome, 1)]
 
 def lastOf (lm : List Int) (q : Int) : Option Int :=
@@ -85,15 +85,19 @@ def lastOf (lm : List Int) (q : Int) : Option Int :=
     if v != -1 then some v else none
   else none
 
+/-- "0"/"1" for the last measurement of a qubit, "?" when there is none -/
+def outcomeChar (lm : List Int) (q : Int) : String :=
+  match lastOf lm q with
+  | some b => if b != 0 then "1" else "0"
+  | none => "?"
+
 /-- the outcome string `endScope`/`recordTrackedValue` record for a tracked value -/
 def trackedOutcome (lm : List Int) (v : Value) : Option (String × String) :=
   match v.type with
-  | .Qubit =>
-    some ("qubit ", match lastOf lm v.qubit with | some b => if b != 0 then "1" else "0" | none => "?")
+  | .Qubit => some ("qubit ", outcomeChar lm v.qubit)
   | .QubitArray =>
     let all := v.qubitArray.all (fun q => (lastOf lm q).isSome)
-    some ("qubit[] ", if !all then "?" else
-      String.join (v.qubitArray.map (fun q => match lastOf lm q with | some b => if b != 0 then "1" else "0" | none => "?")))
+    some ("qubit[] ", if !all then "?" else String.join (v.qubitArray.map (outcomeChar lm)))
   | _ => none
 
 /-- `endScope` -/
